@@ -501,6 +501,7 @@ fn group_layer(ctx: &mut Ctx) {
             1 => vec![("k=n-1", &c.n - 1u32), ("k=n", c.n.clone()), ("k=n+1", &c.n + 1u32)],
             2 => vec![("k=n+small", &c.n + BigUint::from(1 + p.below(300))), ("k=2^256-1", two256m1.clone())],
             3 => vec![("k=single_nibble", BigUint::from(1 + p.below(15)) << (4 * p.below(64) as usize)), ("k=sparse_limbs", sparse_scalar(&mut p, 1 + (i / 6) % 14))],
+            4 => vec![("k=runs_of_ones", run_scalar(&mut p, &c.n)), ("k=runs_of_ones", run_scalar(&mut p, &c.n))],
             _ => vec![("k=random", r2::from_b(&p.bytes(32)))],
         };
         for (cls, k) in scalars {
@@ -611,7 +612,7 @@ pub fn run(ctx: &mut Ctx) {
     for (n, ok) in r2::selftest() {
         ctx.selftest(&n, ok);
     }
-    ctx.require(&["fp_add", "fp_sub", "fp_mul", "fp_sqr", "fp_double", "fp_triple", "fp_neg", "fp_div2", "fp_inv", "fp_pow", "fp_sqrt_residue", "fp_sqrt_nonresidue", "fp_to_mont", "fp_from_mont", "fn_add", "fn_sub", "fn_mul", "fn_pow", "fn_inv", "u256_primitives", "u512_primitives", "fp_mont_mul_carry_out_of_2^512", "fp_mul_product=0", "fp_mul_product=1", "fp_mul_product=m-1", "fn_mul_product_shape", "fp_mul_product_shape", "table_entry", "single_byte_scalar", "P_ne_Q", "P_eq_Q_same_repr", "P_eq_Q_diff_Z", "P_eq_negQ_same_Z", "P_eq_negQ_diff_Z", "infinity_canonical", "infinity_arbitrary_XY", "k=0", "k=n", "k=n+1", "k=n+small", "k=2^256-1", "k=random", "k=sparse_limbs", "k=n+j_sweep", "k=n-j_sweep", "consecutive_negated_base", "consecutive_same_point_other_Z", "crafted_stored_Z_limbs", "to_affine_point", "predicates", "predicates_offcurve", "from_byte"]);
+    ctx.require(&["fp_add", "fp_sub", "fp_mul", "fp_sqr", "fp_double", "fp_triple", "fp_neg", "fp_div2", "fp_inv", "fp_pow", "fp_sqrt_residue", "fp_sqrt_nonresidue", "fp_to_mont", "fp_from_mont", "fn_add", "fn_sub", "fn_mul", "fn_pow", "fn_inv", "u256_primitives", "u512_primitives", "fp_mont_mul_carry_out_of_2^512", "fp_mul_product=0", "fp_mul_product=1", "fp_mul_product=m-1", "fn_mul_product_shape", "fp_mul_product_shape", "table_entry", "single_byte_scalar", "P_ne_Q", "P_eq_Q_same_repr", "P_eq_Q_diff_Z", "P_eq_negQ_same_Z", "P_eq_negQ_diff_Z", "infinity_canonical", "infinity_arbitrary_XY", "k=0", "k=n", "k=n+1", "k=n+small", "k=2^256-1", "k=random", "k=sparse_limbs", "k=runs_of_ones", "k=n+j_sweep", "k=n-j_sweep", "consecutive_negated_base", "consecutive_same_point_other_Z", "crafted_stored_Z_limbs", "to_affine_point", "predicates", "predicates_offcurve", "from_byte"]);
     field_layer(ctx);
     table_layer(ctx);
     group_layer(ctx);
